@@ -119,6 +119,29 @@ type V struct {
 	B    []byte `json:"b,omitempty"`
 	L    []V    `json:"l,omitempty"`
 	F    []V    `json:"f,omitempty"`
+	X    int    `json:"x,omitempty"` // compact long lists: L is repeated cyclically to X elements (see Materialize)
+}
+
+// Materialize expands the compact long-list form (X) recursively.
+func Materialize(v V) V {
+	out := V{Null: v.Null, I: v.I, B: v.B}
+	if len(v.F) > 0 {
+		out.F = make([]V, len(v.F))
+		for i := range v.F {
+			out.F[i] = Materialize(v.F[i])
+		}
+	}
+	n := len(v.L)
+	if v.X > n && n > 0 {
+		n = v.X
+	}
+	if n > 0 {
+		out.L = make([]V, n)
+		for i := range out.L {
+			out.L[i] = Materialize(v.L[i%len(v.L)])
+		}
+	}
+	return out
 }
 
 // Node is the abstract schema tree.
